@@ -28,9 +28,15 @@ UNIVERSES = {
     # while its (default-extracted) key is not a K - only the key-type check can reject it
     "uself": dict(hashable=True, bare=True, typed_only=True),    # KeyedSet[Union[int, str], str]; the int items are ill-KEYED
     "uspec": dict(hashable=False, bare=True, hash_ok=True, typed_only=True),  # Item.k: Union[int, str] in KeyedSet[Item, str]; Item(k=9) is ill-keyed
+    # items whose DEFAULT-extracted key (no key function) is FALSY: bool(key) must play no role in
+    # KeyedBase.__get_item_key / key() nor in any probe "argument as a key, then as an item"
+    "fspec": dict(hashable=False, bare=True, hash_ok=True),   # keyed spec items, k: int; key index 0 is the key 0 (payload even) or False (payload odd; False == 0: one dict key)
+    "fspecs": dict(hashable=False, bare=True, hash_ok=True),  # keyed spec items, k: str; key index 0 is the key ""
+    "fself": dict(hashable=True, bare=True),                  # self-keyed strings; item (0, 0) is ""
 }
 UNAMES = list(UNIVERSES)
-BASE = {"uself": "self", "uspec": "spec"}   # same objects and encoding as the base universe
+# same objects and encoding as the base universe (except for what the comments above say)
+BASE = {"uself": "self", "uspec": "spec", "fspec": "spec", "fspecs": "spec", "fself": "self"}
 
 
 def base(u):
@@ -85,7 +91,8 @@ class Impl:
                      "fdict": (lambda d: d["k"])}[universe]
         if universe == "spec":
             from typing import Union
-            ktype = Union[int, str] if self.name == "uspec" else str
+            ktype = Union[int, str] if self.name == "uspec" else int if self.name == "fspec" else str
+            otype = int if self.name == "fspec" else str
 
             @spec_class(key="k")
             class Item:
@@ -94,15 +101,25 @@ class Impl:
 
             @spec_class(key="k")
             class Other:
-                k: str
+                k: otype
                 p: int
             self.Item, self.Other = Item, Other
+
+    def skey(self, k, p=0):
+        """key (attribute `k`) of the keyed spec item (k, p); as a bare key argument p = 0"""
+        if self.name == "fspec":
+            return k if k != 0 else (False if p % 2 == 1 else 0)   # 0 (falsy int) or False (falsy bool), the same dict key
+        if self.name == "fspecs":
+            return f"k{k}" if k != 0 else ""
+        return f"k{k}"
 
     # item (k, p) -> python object
     def item(self, kp):
         k, p = kp
         u = self.u
         if u == "self":
+            if self.name == "fself" and kp == (0, 0):
+                return ""
             return 1000 + k if p == 9 else f"{k}.{p}"
         if u == "tuple":
             if k == 9:
@@ -110,8 +127,9 @@ class Impl:
             return f"{chr(97 + k)}9" if p == 9 else (chr(97 + k), p)
         if u == "spec":
             if k == 9:
-                return self.Item(k=9, p=p)   # uspec only: a valid Item whose key is not a str
-            return self.Other(k=f"k{k}", p=9) if p == 9 else self.Item(k=f"k{k}", p=p)
+                # uspec only: a valid Item whose key is not a str (9, or the FALSY 0 for an even payload)
+                return self.Item(k=9 if p % 2 else 0, p=p)
+            return self.Other(k=self.skey(k, p), p=9) if p == 9 else self.Item(k=self.skey(k, p), p=p)
         if u == "intkey":
             if k == 9:
                 return ("nine", p)
@@ -141,7 +159,9 @@ class Impl:
             return self.item(kp)
         if u == "intkey":
             return k
-        if u in ("spec", "dict", "int", "fdict"):
+        if u == "spec":
+            return self.skey(k, kp[1])   # fspec: the bare key 0 is given as 0 or as False
+        if u in ("dict", "int", "fdict"):
             return f"k{k}"
         return chr(97 + k)
 
@@ -155,6 +175,12 @@ class Impl:
                 return self.dec_item(k)
             if u == "intkey":
                 return (9 if k == "nine" else int(k), 0)
+            if self.name == "fspec":
+                return (int(k), 0) if isinstance(k, int) else (60, 0)
+            if self.name == "fspecs" and isinstance(k, str) and k == "":
+                return (0, 0)
+            if u == "spec" and isinstance(k, int):
+                return (9, 0)   # uspec: the ill-typed keys 9 and 0
             if u in ("spec", "dict", "int", "fdict"):
                 return (9 if k == 9 else int(k[1:]), 0)
             return (9 if k == 9 else ord(k) - 97, 0)
@@ -167,6 +193,8 @@ class Impl:
             if u == "self":
                 if isinstance(o, int):
                     return (o - 1000, 9)
+                if self.name == "fself" and isinstance(o, str) and o == "":
+                    return (0, 0)
                 a, b = o.split(".")
                 return (int(a), int(b))
             if u == "spec":
@@ -203,6 +231,8 @@ class Impl:
         if self.name == "uself":
             from typing import Union
             return KS[Union[int, str], str]
+        if self.name == "fspec":
+            return KS[self.Item, int]
         return {"self": lambda: KS[str, str], "tuple": lambda: KS[tuple, str], "spec": lambda: KS[self.Item, str],
                 "intkey": lambda: KS[tuple, int], "dict": lambda: KS[dict, str], "list": lambda: KS[list, str],
                 "int": lambda: KS[int, str], "ftuple": lambda: KS[tuple, str], "fdict": lambda: KS[dict, str]}[self.u]()
@@ -372,7 +402,7 @@ def bad_items(u, keys, pays, typed):
     bad = []
     if typed:
         bad.append((keys[0], 9))
-        if u not in ("self", "spec", "int", "uself"):
+        if u not in ("self", "spec", "int", "uself", "fspec", "fspecs", "fself"):
             bad.append((9, pays[0]))
     return bad
 
@@ -492,7 +522,7 @@ def generate(rng, tier):
         keys, pays = [0, 1, 2], [0, 1]
         insts = op_instances(u, keys, pays, typed)
         for init in states(keys, pays, 2 if quick else 3):
-            st = 32 if quick else (4 if len(init) < 3 else 32)
+            st = 40 if quick else (4 if len(init) < 3 else 32)
             for op in insts[rng.randrange(st)::st]:
                 cases.append((u, typed, enf, init, [op], "exh1"))
     # every entry point that can reach the equivalence check, with an incoming item that
@@ -804,7 +834,7 @@ def main(tier, replay=None):
         "evaluations": len(cases), "distinct_nontrivial": len(distinct),
         "rule": "case = (universe, typed, enforce_item_equivalence, initial items, operation list); depth-1: every state "
                 "of <=2 (thorough <=3) items of 3 keys x 2 payloads x a stride through every operation instance "
-                "(quick: every 32nd; thorough: every 4th for <=2 items, every 32nd for 3); 'equiv': every entry point reaching the equivalence check x every operand kind x stored/incoming items under one key (payload 0 is falsy in three universes), exhaustive over 2 keys x 2 payloads, sampled depth-2, random "
+                "(quick: every 40th; thorough: every 4th for <=2 items, every 32nd for 3); 'equiv': every entry point reaching the equivalence check x every operand kind x stored/incoming items under one key (payload 0 is falsy in three universes), exhaustive over 2 keys x 2 payloads, sampled depth-2, random "
                 "sequences of <=8/16 operations over 5 keys x 3 payloads; distinct = distinct tuples; every case has >=1 operation",
         "samples": [dict(universe=c[0], typed=c[1], enforce=c[2], init=c[3], ops=c[4]) for c in pick],
         "exhaustive": False,
@@ -813,7 +843,7 @@ def main(tier, replay=None):
         trusted_base=["Coq 8.16.1 kernel and vm_compute", "no axioms (Print Assumptions: closed under the global context)",
                       "hand-written model coq/KS/Model.v (KeyedSet + collections.abc Set/MutableSet mixins + dict semantics) "
                       "tied to /repo by this run's correspondence",
-                      "harness/c14.py encoders and the eleven item universes"],
+                      "harness/c14.py encoders and the fourteen item universes"],
         assumptions=["items are values: == on items is equality; key functions are total on items and, on bare keys, "
                      "either return the key or raise TypeError (DESIGN section 7)",
                      "an item that can itself be used as a dictionary key is its own key (the class docstring warns "
